@@ -12,7 +12,8 @@ THEOREMS = ["C07_numerals_bounded", "C07_hex_numerals_bounded", "C07_saturation_
             "C07_lex_terminates_partial", "C07_lex_f_terminates_partial", "C07_lex_f_terminates_length", "C07_lex_terminates_initial",
             "C07_builtin_rhythm_inert", "C07_lex_keeps_rhythm_table", "C07_reader_suffix", "C07_lex_terminates_refuted",
             "C07_lex_rhythm_recursion_diverges",
-            "C07_compile_never_panics", "C07_lex_never_panics", "C07_exec_never_panics", "C07_compile_outcomes"]
+            "C07_compile_never_panics", "C07_lex_never_panics", "C07_exec_never_panics", "C07_compile_outcomes",
+            "C07_compile_fuel_partial", "C07_exec_fuel_partial"]
 RULE = ("every sequence of up to k lexical fragments from the language's alphabet (k=2 quick over the full alphabet, "
         "k=3 over a reduced alphabet; thorough k=3 full), random junk text incl. non-ASCII, grammar programs with arguments "
         "dropped/duplicated/out of range (every command name of the implementation's table x 16 argument shapes, every reservation head x "
